@@ -22,7 +22,7 @@ OPTION_CLOSURE_ADAPTERS = {"map", "and_then", "filter", "ok_or_else", "map_err",
 def base_iter(t):
     """strip `mutated` wrappers and loop phis from an iterator term"""
     while True:
-        if t[0] == "mutated":
+        if t[0] in ("mutated", "drv"):
             t = t[1]
             continue
         if t[0] == "phi":
@@ -53,11 +53,12 @@ def norm_elems(t):
 
 
 class Effect:
-    __slots__ = ("kind", "cid", "head", "args", "term", "body", "block", "env")
+    __slots__ = ("kind", "cid", "head", "args", "term", "body", "block", "env", "raw")
 
-    def __init__(self, kind, cid, head, args, term, body, block, env):
+    def __init__(self, kind, cid, head, args, term, body, block, env, raw=None):
         self.kind, self.cid, self.head, self.args = kind, cid, head, args
         self.term, self.body, self.block, self.env = term, body, block, env
+        self.raw = raw if raw is not None else args   # arguments before loop/closure normalisation (loop identities kept)
 
     @property
     def name(self):
@@ -77,7 +78,7 @@ def iteration_effects(ev, env, depth=0, max_depth=6, seen=None):
                 while ptr[0] == "update" and ptr[2] and ptr[2][0] == ("deref",):
                     ptr = ptr[1]
                 val = ev.rvalue(env, s["rv"], (bi, si))
-                yield Effect("store", "store", None, [norm_elems(ptr), norm_elems(val)], s, body, bi, env)
+                yield Effect("store", "store", None, [norm_elems(ptr), norm_elems(val)], s, body, bi, env, [ptr, val])
         t = bb["term"]
         if t["k"] != "call":
             continue
@@ -85,7 +86,7 @@ def iteration_effects(ev, env, depth=0, max_depth=6, seen=None):
         if d["proj"] and d["proj"][0]["k"] == "deref" and len(d["proj"]) == 1:
             ptr = ev.lookup(env, (d["l"], ()), (bi, None))
             val = ev.call_val(env, bi)
-            yield Effect("store", "store", None, [norm_elems(ptr), norm_elems(val)], t, body, bi, env)
+            yield Effect("store", "store", None, [norm_elems(ptr), norm_elems(val)], t, body, bi, env, [ptr, val])
         if "fn" not in t:
             continue
         fn = t["fn"]
@@ -99,7 +100,7 @@ def iteration_effects(ev, env, depth=0, max_depth=6, seen=None):
             for r in iteration_effects(ev, sub, depth + 1, max_depth, seen):
                 yield r
             continue
-        yield Effect("call", cid, fn.get("self_adt"), [norm_elems(a) for a in args], t, body, bi, env)
+        yield Effect("call", cid, fn.get("self_adt"), [norm_elems(a) for a in args], t, body, bi, env, list(args))
         # closures driven by adapters
         clo_idx = None
         param = None
@@ -107,7 +108,9 @@ def iteration_effects(ev, env, depth=0, max_depth=6, seen=None):
         if is_iter and name in ITER_CLOSURE_ADAPTERS:
             clo_idx = ITER_CLOSURE_ADAPTERS[name]
             if args:
-                param = ("elem", base_iter(args[0]))
+                # the driving iterator keeps the identity of this iteration (closure + call path), so that two nested
+                # iterations over equal iterator terms stay distinct (see tab.py); norm_elems drops it again
+                param = ("elem", ("drv", base_iter(args[0]), (args[clo_idx][1] if len(args) > clo_idx and args[clo_idx][0] == "closure" else None, body.key, bi, env.path)))
         elif (cid.startswith("std::option::Option::") or cid.startswith("std::result::Result::")) and name in OPTION_CLOSURE_ADAPTERS:
             clo_idx = 1
             if args:
